@@ -784,6 +784,7 @@ func spaces(tier string) []kit.Space {
 	installHook()
 	sps := []kit.Space{importSpace(true), importSpace(false), globalsSpace(), ambientSpace(), goSpace()}
 	sps = append(sps, callSpaces(tier)...)
+	sps = append(sps, historySpaces(tier)...)
 	return sps
 }
 
@@ -792,7 +793,7 @@ func main() {
 		ID:       "C19",
 		Level:    "model_checking",
 		Isolated: true,
-		Rule: "imports: 8 subsets of {fmt,strings,os} (fake packages) × 7 foreign paths {none, unsafe, C, main, x/y, ../a, empty} × every import form (plain, alias, dot, blank; plus `for` in templates) × 15 importer configurations (8 Packages subsets, 4 CombinedImporter shapes, an importer that returns an error, nil importer, nil options), for programs and templates; globals: 9 declared sets × 8 referenced sets × 4 placements; 17 ambient identifiers × 3 source kinds × 15 configurations; go statement: 5 forms × 6 places × AllowGoStmt on/off; call paths: 33 ways to reach a supplied function × 7 places (pairs of ways in thorough). Every case that builds is run with the native-call hook. Every case is non-trivial: it either must fail to build for a stated reason or runs at least one statement",
+		Rule: "imports: 8 subsets of {fmt,strings,os} (fake packages) × 7 foreign paths {none, unsafe, C, main, x/y, ../a, empty} × every import form (plain, alias, dot, blank; plus `for` in templates) × 15 importer configurations (8 Packages subsets, 4 CombinedImporter shapes, an importer that returns an error, nil importer, nil options), for programs and templates; globals: 9 declared sets × 8 referenced sets × 4 placements; 17 ambient identifiers × 3 source kinds × 15 configurations; go statement: 5 forms × 6 places × AllowGoStmt on/off; call paths: 33 ways to reach a supplied function × 7 places (pairs of ways in thorough); histories: every sequence of 2 and 3 builds that reuse the same Globals / Declarations / Packages map objects and the same BuildOptions, the map being edited in place between builds to each of its 12 contents over {A→FA|FA2, B→FB, C→FC}, × 7 referenced-name sets × 4 sharing modes (3-build histories for 2 modes in quick). Every case that builds is run with the native-call hook. Every case is non-trivial: it either must fail to build for a stated reason or runs at least one statement",
 		Assumptions: []string{
 			"the universe packages are fakes with marker functions; the check's own package plays the embedder",
 			"a native call is attributed by the function name of its code pointer; calls of reflect method values are attributed by counting the supplied methods actually entered",
